@@ -69,9 +69,6 @@ class LogicalRecordBytes:
                 raise ValueError("Logical record too short for the requested bytes")
             is_last = end_pos == self._size
 
-        if n_bytes < 12:
-            raise ValueError(f"Logical Record segment body cannot be shorter than 12 bytes (got {n_bytes})")
-
         segment_attributes = SegmentAttributes(
             is_eflr=self._is_eflr,
             is_first=(start_pos == 0),
@@ -79,16 +76,22 @@ class LogicalRecordBytes:
         )
 
         size = n_bytes + 4  # adding header size - 4 bytes
-        if size % 2:
-            # total segment size must be even; if the number of bytes is odd, add a padding byte
-            size += 1
+
+        # a segment must be at least 16 bytes long and its total size must be even;
+        # if needed, pad bytes are added (and announced in the segment attributes)
+        n_pad_bytes = max(16 - size, 0)
+        if (size + n_pad_bytes) % 2:
+            n_pad_bytes += 1
+        if n_pad_bytes:
+            size += n_pad_bytes
             segment_attributes.has_padding = True
 
         header_bytes = RepC.UNORM.convert(size) + segment_attributes.to_struct() + self._lr_type_struct
 
         new_bts = header_bytes + self._bts[start_pos:end_pos]
-        if segment_attributes.has_padding:
-            new_bts += self.padding  # add the promised padding byte
+        if n_pad_bytes:
+            # add the promised pad bytes; each of them (in particular the last one) holds the pad count
+            new_bts += n_pad_bytes * RepC.USHORT.convert(n_pad_bytes)
 
         return new_bts, size
 
